@@ -317,6 +317,13 @@ func (r *DeviceLocal) ProcessCmd(datagram model.DatagramType, remoteDevice api.D
 	destAddr := datagram.Header.AddressDestination
 	localFeature := r.FeatureByAddress(destAddr)
 
+	// a destination without device part means this device, results have to name it as their source
+	if destAddr.Device == nil {
+		completeAddr := *destAddr
+		completeAddr.Device = r.Address()
+		destAddr = &completeAddr
+	}
+
 	cmdClassifier := datagram.Header.CmdClassifier
 	if len(datagram.Payload.Cmd) == 0 {
 		return errors.New("no payload cmd content available")
